@@ -28,7 +28,7 @@ theorem negotiation_order (jid pass : Option Bytes) (cert : Bool) (flags : Nat) 
     ∀ r ∈ (exec (fresh jid pass cert flags) ops).tx,
       ((∃ res, r.item = .bind res) ∨ r.item = .session ∨ (∃ x, r.item = .enable x) ∨
         (∃ p h, r.item = .resume p h) → r.snap.g.authOk = true) ∧
-      (r.item = .starttls → r.sec = false) ∧
+      (r.item = .starttls → r.snap.secured = false) ∧
       ((∃ m t, r.item = .auth m t) ∨ (∃ t, r.item = .response t) → r.snap.g.authOk = false) :=
   Lemmas.ConnC03.negotiation_order jid pass cert flags ops hu
 
@@ -70,12 +70,22 @@ theorem no_user_callback_before_connect (jid pass : Option Bytes) (cert : Bool) 
       ((∃ n i, p.2 = .userStanza n i) ∨ p.2 = .userTimed) → p.1.notifiedConnect = true :=
   Lemmas.ConnC03.no_user_callback_before_connect jid pass cert flags ops
 
-/-- … and no stanza the user submits reaches the wire — PARTIAL: proved for histories without
+/-- … and no stanza the user submits reaches the wire (`notifiedW`: CONNECT had been delivered on
+    the connection when the element was written) — PARTIAL: proved for histories without
     `xmpp_send_raw`; the full statement is false of the code (known finding D13, witness below) -/
 theorem no_user_data_before_connect_partial (jid pass : Option Bytes) (cert : Bool) (flags : Nat)
     (ops : List Op) (hn : noSendRaw ops) :
-    ∀ r ∈ (exec (fresh jid pass cert flags) ops).tx, r.owner = .user → r.snap.negotiated = true :=
+    ∀ r ∈ (exec (fresh jid pass cert flags) ops).tx, r.owner = .user → r.notifiedW = true :=
   Lemmas.ConnC03.no_user_data_before_connect_partial jid pass cert flags ops hn
+
+/-- the same at queue time: queued on a negotiated stream, or re-queued by a stream-management
+    resumption whose session the server has already confirmed -/
+theorem no_user_data_before_connect_queue_partial (jid pass : Option Bytes) (cert : Bool) (flags : Nat)
+    (ops : List Op) (hn : noSendRaw ops) :
+    ∀ r ∈ (exec (fresh jid pass cert flags) ops).tx, r.owner = .user →
+      r.snap.negotiated = true ∨
+      (r.snap.g.authOk = true ∧ (r.snap.g.bound = true ∨ r.snap.g.resumed = true)) :=
+  Lemmas.ConnC03.no_user_data_before_connect_queue_partial jid pass cert flags ops hn
 
 theorem negotiated_iff_notified (jid pass : Option Bytes) (cert : Bool) (flags : Nat) (ops : List Op) :
     let c := exec (fresh jid pass cert flags) ops
@@ -91,7 +101,7 @@ set_option maxRecDepth 20000
 theorem send_raw_before_connect :
     ∃ r ∈ (exec (fresh (some (b "user@example.org")) (some (b "secret")) false 0)
             [.connect .client, .run .none, .uraw (.user (b "presence") none), .run .none, .run .none]).tx,
-      r.owner = .user ∧ r.snap.negotiated = false := by
+      r.owner = .user ∧ r.snap.negotiated = false ∧ r.notifiedW = false := by
   decide
 
 def featuresPlain : XTree :=
